@@ -164,7 +164,7 @@ class Ref:
     def step_out(self, i):
         s = self.st(i)
         if s[8] == 0:
-            return None                             # no enclosing call: the property says nothing
+            return i                                # no enclosing call: nothing to step out of, nothing executes
         return self.first_after(i, lambda t: t[8] == s[8] - 1)
 
     def stack_dirty(self, i):
@@ -176,28 +176,32 @@ class Ref:
 
 # ------------------------------------------------------------------------------------------------ programs
 def gen_program(rng, endless=True, want_calls=True):
-    """a self-locating test program: one instruction per line; returns (text, meta)"""
+    """a self-locating test program: one instruction per line; returns the text.
+    Shapes: 0-2 plain subroutines (nested calls), optionally a self-recursive subroutine (called with a depth in Y),
+    optionally two segments whose source order is not their address order (test in one, subroutines in the other)."""
     nsub = rng.choice([0, 1, 2, 2]) if want_calls else 0
-    lines = ['.test "t" {', "    ldx #%d" % rng.randrange(0, 3), "    ldy #0"]
+    recursive = want_calls and rng.random() < 0.4
+    layout = rng.choice(["single", "single", "test_high", "subs_first"]) if (nsub or recursive) else "single"
+    test = ['.test "t" {', "    ldx #%d" % rng.randrange(0, 3), "    ldy #0"]
 
-    def body(depth_allowed, nitems, subs):
+    def body(depth_allowed, nitems, subs, keep_y=False):
         out = []
         for _ in range(nitems):
             k = rng.random()
             if k < 0.35:
                 out.append("    inx")
             elif k < 0.45:
-                out.append("    iny")
+                out.append("    inx" if keep_y else "    iny")
             elif k < 0.52:
                 out.append("    nop")
             elif k < 0.60:
                 out.append("    lda #%d" % rng.randrange(1, 200))
             elif k < 0.70:
-                inner = ["    " + rng.choice(["inx", "nop", "iny", "txa"]) for _ in range(rng.randrange(0, 3))]
+                inner = ["    " + rng.choice(["inx", "nop", "inx" if keep_y else "iny", "txa"]) for _ in range(rng.randrange(0, 3))]
                 if subs and depth_allowed and rng.random() < 0.4:
                     inner.append("    jsr %s" % rng.choice(subs))
                 out += ["    pha"] + inner + ["    pla"]
-            elif k < 0.80:
+            elif k < 0.80 and not keep_y:
                 lab = "l%d" % rng.randrange(10 ** 6)
                 out += ["    ldy #%d" % rng.randrange(2, 5), lab + ":", "    dey", "    bne " + lab]
             elif subs and depth_allowed:
@@ -207,17 +211,33 @@ def gen_program(rng, endless=True, want_calls=True):
         return out
 
     subs = ["sub%d" % i for i in range(nsub)]
-    lines.append("main_loop:")
+    test.append("main_loop:")
     main = body(True, rng.randrange(3, 9), subs)
     if subs and not any("jsr" in l for l in main):
         main.insert(rng.randrange(0, len(main) + 1), "    jsr %s" % subs[-1])
-    lines += main
-    lines.append("    jmp main_loop" if endless else "    brk")
+    if recursive:
+        at = rng.randrange(0, len(main) + 1)
+        main[at:at] = ["    ldy #%d" % rng.randrange(2, 5), "    jsr rec"]
+    test += main
+    test.append("    jmp main_loop" if endless else "    brk")
+    code = []
     for i, name in enumerate(subs):
-        lines.append(name + ":")
-        lines += body(True, rng.randrange(1, 5), subs[:i])     # sub_i may call sub_j, j < i: nesting, no recursion
-        lines.append("    rts")
-    lines.append("}")
+        code.append(name + ":")
+        code += body(True, rng.randrange(1, 5), subs[:i])     # sub_i may call sub_j, j < i: nesting
+        code.append("    rts")
+    if recursive:
+        # rec calls itself through one call site until Y reaches 0; the plain subroutines never change Y between
+        # the `dey` and the recursive call (the items placed there keep Y)
+        code += ["rec:", "    dey", "    beq rec_done"] + body(False, rng.randrange(0, 3), [], keep_y=True) + ["    jsr rec"]
+        code += body(False, rng.randrange(0, 2), [], keep_y=True) + ["rec_done:", "    inx", "    rts"]
+    if layout == "single":
+        lines = test + code + ["}"]
+    elif layout == "test_high":          # test at $c100, subroutines (later in the source) at $c000
+        lines = ['.define segment { name = "hi" start = $c100 }', '.define segment { name = "lo" start = $c000 }',
+                 '.segment "hi" {'] + test + ["}", "}", '.segment "lo" {'] + code + ["}"]
+    else:                                # subroutines first in the source but at the higher address
+        lines = ['.define segment { name = "lo" start = $c000 }', '.define segment { name = "hi" start = $c100 }',
+                 '.segment "hi" {'] + code + ["}", '.segment "lo" {'] + test + ["}", "}"]
     return "\n".join(lines) + "\n"
 
 
@@ -549,7 +569,7 @@ class Session:
                     self._do("stepIn")
                 elif k < 0.70:
                     self._do("next")
-                elif k < 0.82 and s[8] > 0:
+                elif k < 0.82 and (s[8] > 0 or k > 0.79):
                     self._do("stepOut")
                 elif k < 0.92:
                     self._do("setBreakpoints", rng.sample(prog.code_lines, rng.randrange(0, 4)))
@@ -671,6 +691,7 @@ def accept_trace(model, prog, log, protocol="StateHeld", reset_lcp=True):
 # ------------------------------------------------------------------------------------------------ corpus witnesses
 PAUSE_LOOP = '.test "t" {\n    ldx #0\nloop:\n    inx\n    inx\n    inx\n    jmp loop\n}\n'
 STEPOUT_PHA = '.test "t" {\n    ldx #0\n    lda #7\n    jsr sub\n    inx\n    brk\nsub:\n    pha\n    nop\n    pla\n    rts\n}\n'
+RECURSIVE = '.test "t" {\n    ldy #3\n    jsr rec\n    brk\nrec:\n    dey\n    beq done\n    jsr rec\ndone:\n    inx\n    rts\n}\n'
 SELF_LOOP = '.test "t" {\n    ldx #0\n    inx\nhang:\n    jmp hang\n}\n'
 
 
@@ -689,6 +710,11 @@ def corpus_sessions(mos, probe, rng, model=None):
     p2 = Program(SELF_LOOP, probe)
     out.append(("self_loop", Session(mos, p2, rng.randrange(1 << 30), rng.randrange(1 << 30), 1500, 0,
                                      script=[("setBreakpoints", [5]), ("continue",), ("sleep", 200), ("pause",)] + [("continue",), ("wait",)] * 3, model=model)))
+    p3 = Program(RECURSIVE, probe)
+    out.append(("recursive_next", Session(mos, p3, rng.randrange(1 << 30), None, 0, 0,
+                                          script=[("setBreakpoints", [8]), ("next",), ("stepOut",), ("stepOut",)], model=model)))
+    out.append(("recursive_stepout", Session(mos, p3, rng.randrange(1 << 30), None, 0, 0,
+                                             script=[("setBreakpoints", [10]), ("stepOut",), ("stepOut",), ("stepOut",), ("stepOut",)], model=model)))
     out.append(("stepout_clean", Session(mos, p, rng.randrange(1 << 30), None, 0, 0,
                                          script=[("setBreakpoints", [8]), ("stepOut",)], model=model)))
     return out
